@@ -1,6 +1,7 @@
 #!/usr/bin/env python3
-"""setup: sanity-check the toolchain and the annotation files (no build products are needed by the checks)."""
-import os, shutil, subprocess, sys
+"""setup: sanity-check the toolchain and the annotation files, and warm the build cache of the witness drivers
+(dependencies only matter: every check copies /repo's current sources afresh and rebuilds the library and the drivers)."""
+import os, shutil, subprocess, sys, tempfile
 HERE = os.path.dirname(os.path.abspath(__file__))
 sys.path.insert(0, HERE)
 import mirror
@@ -10,3 +11,14 @@ text, lm, info = mirror.build()
 print('mirror ok: %d lines, modules: %s' % (len(text.split('\n')), [m['name'] for m in info['modules']]))
 os.makedirs(os.path.join(os.path.dirname(HERE), 'evidence'), exist_ok=True)
 os.makedirs(os.path.join(os.path.dirname(HERE), 'replays'), exist_ok=True)
+try:
+    import witness
+    w = tempfile.mkdtemp(prefix='verif-setup-', dir=os.environ.get('VERIF_SCRATCH', '/var/tmp'))
+    try:
+        for fs in (('history', 'autocomplete', 'help'), ('history', 'autocomplete'), ('autocomplete',), ('help',)):
+            b, log = witness.build(w, fs)
+            print('witness drivers (%s): %s' % (','.join(fs), 'built' if b else 'NOT built: ' + log[-1][-300:]))
+    finally:
+        shutil.rmtree(w, ignore_errors=True)
+except Exception as e:   # the proofs do not need the drivers
+    print('witness drivers not pre-built: %s' % e)
